@@ -457,6 +457,8 @@ Operator const Operators[] =
   {"<=", 2 , True , 23, { Int2Int, Float2Float, String2String, 0, 0 }, LeOp},
   {">=", 2 , True , 23, { Int2Int, Float2Float, String2String, 0, 0 }, GeOp},
   {"<>", 2 , True , 23, { Int2Int, Float2Float, String2String, 0, 0 }, UneqOp},
+  /* documented alias of <>; keep it behind the entries addressed by index (+ is 12, - is 13) */
+  {"!=", 2 , True , 23, { Int2Int, Float2Float, String2String, 0, 0 }, UneqOp},
   /* termination marker */
   {NULL, 0 , False,  0, { 0, 0, 0, 0, 0 }, NULL}
 },
